@@ -108,6 +108,8 @@ type vInvocation struct {
 	fcSender, fcReceiver bool
 	rcvWindow, sndWindow uint32
 	rcvQueued            uint64
+	// call shape the server derived for the stream
+	clientStreams, serverStreams bool
 }
 
 type vSvcImpl struct{ name string }
@@ -117,7 +119,7 @@ type vHandlerLog struct {
 	result  error
 	readOne bool // the streaming handler reads one request before returning
 	readErr error
-	returns int // handler invocations that have returned
+	returns int  // handler invocations that have returned
 	sendOne bool // the streaming handler sends one response first
 }
 
@@ -139,37 +141,42 @@ func vHandlers(hl *vHandlerLog) grpchan.HandlerMap {
 			}
 			return &emptypb.Empty{}, nil
 		}
-		stream := func(srv any, st grpc.ServerStream) error {
-			inv := vInvocation{svc: srv.(*vSvcImpl).name, method: sn + "/s", streaming: true, ctx: st.Context(), stream: st}
-			if ss, ok := st.(*tunnelServerStream); ok {
-				if ds, ok := ss.sender.(*defaultSender); ok {
-					inv.fcSender, inv.sndWindow = true, ds.currentWindow.Load()
-				}
-				if fr, ok := ss.receiver.(*defaultReceiver[tunnelpb.ClientToServerFrame]); ok {
-					inv.fcReceiver = true
-					fr.mu.Lock()
-					inv.rcvWindow = fr.currentWindow
-					for e := fr.items.Front(); e != nil; e = e.Next() {
-						inv.rcvQueued += uint64(fr.measure(e.Value.(tunnelpb.ClientToServerFrame)))
+		mkStream := func(mname string) grpc.StreamHandler {
+			return func(srv any, st grpc.ServerStream) error {
+				inv := vInvocation{svc: srv.(*vSvcImpl).name, method: sn + "/" + mname, streaming: true, ctx: st.Context(), stream: st}
+				if ss, ok := st.(*tunnelServerStream); ok {
+					inv.clientStreams, inv.serverStreams = ss.isClientStream, ss.isServerStream
+					if ds, ok := ss.sender.(*defaultSender); ok {
+						inv.fcSender, inv.sndWindow = true, ds.currentWindow.Load()
 					}
-					fr.mu.Unlock()
+					if fr, ok := ss.receiver.(*defaultReceiver[tunnelpb.ClientToServerFrame]); ok {
+						inv.fcReceiver = true
+						fr.mu.Lock()
+						inv.rcvWindow = fr.currentWindow
+						for e := fr.items.Front(); e != nil; e = e.Next() {
+							inv.rcvQueued += uint64(fr.measure(e.Value.(tunnelpb.ClientToServerFrame)))
+						}
+						fr.mu.Unlock()
+					}
 				}
+				hl.calls = append(hl.calls, inv)
+				defer func() { hl.returns++ }()
+				if hl.sendOne {
+					_ = st.SendMsg(&emptypb.Empty{})
+				}
+				if hl.readOne {
+					hl.readErr = st.RecvMsg(&wrapperspb.BytesValue{})
+				}
+				return hl.result
 			}
-			hl.calls = append(hl.calls, inv)
-			defer func() { hl.returns++ }()
-			if hl.sendOne {
-				_ = st.SendMsg(&emptypb.Empty{})
-			}
-			if hl.readOne {
-				hl.readErr = st.RecvMsg(&wrapperspb.BytesValue{})
-			}
-			return hl.result
 		}
 		desc := &grpc.ServiceDesc{
 			ServiceName: sn,
 			HandlerType: (*any)(nil),
 			Methods:     []grpc.MethodDesc{{MethodName: "u", Handler: unary}},
-			Streams:     []grpc.StreamDesc{{StreamName: "s", Handler: stream, ClientStreams: true, ServerStreams: true}},
+			Streams: []grpc.StreamDesc{{StreamName: "s", Handler: mkStream("s"), ClientStreams: true, ServerStreams: true},
+				{StreamName: "ss", Handler: mkStream("ss"), ServerStreams: true},
+				{StreamName: "cs", Handler: mkStream("cs"), ClientStreams: true}},
 		}
 		hm.RegisterService(desc, &vSvcImpl{sn})
 	}
@@ -246,7 +253,7 @@ func vRefMethod(name string) (class int, svc string, method string) {
 		return 0, "", ""
 	}
 	svc, method = name[:cut], name[cut+1:]
-	if (svc == "a" || svc == "b.c") && (method == "u" || method == "s") {
+	if (svc == "a" || svc == "b.c") && (method == "u" || method == "s" || method == "ss" || method == "cs") {
 		return 2, svc, method
 	}
 	return 1, svc, method
@@ -332,7 +339,7 @@ func verifH_SrvNewStream() {
 	ns := &tunnelpb.NewStream{MethodName: name, ProtocolRevision: rev, InitialWindowSize: win}
 	hdrShape := 0
 	if focus == 2 {
-		hdrShape = verifChoice("headers", 3)
+		hdrShape = verifChoice("headers", 4)
 	}
 	var tmo string
 	switch hdrShape {
@@ -341,6 +348,18 @@ func verifH_SrvNewStream() {
 	case 2:
 		tmo = verifString("timeout", verifParam("timeoutlen"))
 		ns.RequestHeaders = &tunnelpb.Metadata{Md: map[string]*tunnelpb.Metadata_Values{"grpc-timeout": {Val: []string{tmo}}}}
+	case 3:
+		// a repeated header: the last value is the effective one, whatever precedes it
+		n := verifParam("timeoutlen")
+		if n > 3 {
+			n = 3
+		}
+		tmo = verifString("timeout", n)
+		first := "1H"
+		if verifBool("firstMalformed") {
+			first = "bogus"
+		}
+		ns.RequestHeaders = &tunnelpb.Metadata{Md: map[string]*tunnelpb.Metadata_Values{"grpc-timeout": {Val: []string{first, tmo}}}}
 	}
 	car.script = []*tunnelpb.ClientToServer{{StreamId: fid, Frame: &tunnelpb.ClientToServer_NewStream{NewStream: ns}}}
 	// what a client may send next for the same id, before it hears back
@@ -446,7 +465,14 @@ func verifH_SrvNewStream() {
 	}
 	inv := hl.calls[0]
 	verifAssert(inv.svc == svc && inv.method == svc+"/"+method, "C08.the-named-handler")
-	verifAssert(inv.streaming == (method == "s"), "C08+C16.call-shape-from-descriptor")
+	verifAssert(inv.streaming == (method != "u"), "C08+C16.call-shape-from-descriptor")
+	if inv.streaming {
+		// the shape the server will enforce is the descriptor's, per direction
+		verifAssert(inv.clientStreams == (method == "s" || method == "cs") && inv.serverStreams == (method == "s" || method == "ss"), "C16.srv-enforced-shape-is-the-descriptors")
+		if method == "ss" || method == "cs" {
+			verifCover("one-sided-streaming-method")
+		}
+	}
 	// C17: handler context
 	tm, ok := TunnelMetadataFromIncomingContext(inv.ctx)
 	verifAssert(ok && len(tm) == 1 && len(tm["tk"]) == 1 && tm["tk"][0] == "tv", "C17.tunnel-metadata-visible")
@@ -472,7 +498,7 @@ func verifH_SrvNewStream() {
 		}
 	}
 	d, hasDeadline := verifDeadline(inv.ctx)
-	if hdrShape == 2 {
+	if hdrShape >= 2 {
 		wf, want, zero := refTimeout(tmo)
 		if wf && !zero {
 			verifCover("deadline")
@@ -506,7 +532,7 @@ func verifH_SrvNewStream() {
 		code, _ := vCloseCode(mine[len(mine)-1])
 		if hl.result != nil {
 			verifAssert(code == status.Code(hl.result), "C02.close-carries-handler-status")
-		} else if method == "s" {
+		} else if method != "u" {
 			verifAssert(code == codes.OK, "C02.close-carries-ok")
 		}
 	}
